@@ -321,4 +321,7 @@ def run(chk, ctx):
     round3.tidy_up_callers(chk, ctx)
     round3.pending_marker_not_data(chk, ctx)
     round3.sentinel_guard(chk, ctx)
+    from . import round4, c06
+    round4.fresh_iteration_input(chk, ctx)
+    c06.r2(chk, ctx)                         # only replies of a terminated branch itself become Task.Terminated: healthy sibling joins complete
     chk.assume("one terminal event per branch reaches the join (C02/C03 clauses); indexed writes to distinct slots commute")
